@@ -90,6 +90,10 @@ func VC07Rel(kind, tbl, op int) {
 	b.Memory, b.IO = busB, busB
 	a.Interrupt = it
 	a.Step() // acceptance
+	if kind == 0 {
+		// an NMI is taken at the boundary it arrives at, whatever went before
+		vAssert("nmi-accepted-at-boundary", a.Interrupt == nil)
+	}
 	if a.Interrupt != nil {
 		vStop("acceptance delayed (allowed right after EI); covered by C06")
 	}
